@@ -180,6 +180,8 @@ MovesUnion(h, kn) ==
                  \* the same reference inside an operator (the operator node must take its type from the column as the union sees it)
                  \o MapS(Take(SetToSortSeq({c \in kn : c \in Scope(h[lc]) /\ h[lc].ty[c] = "int"}, <), 2),
                          LAMBDA c : MMutate(jc, <<KV("probe", Fn2("mul", Col(c), LitI(2)))>>))
+                 \* the united column has ONE type for all its rows (its text form shows it: '2.0', not '2', for rows of an integer operand)
+                 \o MapS(SelectSeq(ColOf(t, "b"), LAMBDA c : t.ty[c] = "float"), LAMBDA c : MMutate(jc, <<KV("probe", Cast(Col(c), "str"))>>))
                  \* an integer-only operator through the old reference: type-checked against the column as the union sees it
                  \o MapS(Take(SetToSortSeq({c \in kn : c \in Scope(h[lc]) /\ h[lc].ty[c] = "int"}, <), 2),
                          LAMBDA c : MMutate(jc, <<KV("probe", Fn2("floordiv", Col(c), LitI(2)))>>))
